@@ -19,49 +19,26 @@ func init() {
 		r03_1, r03_2, r03_3, r03_4, r03_5, r03_6, r03_7, r03_8, r08_8)
 }
 
-// convertMap reads the if-chain of convertJieQi as a finite map alias -> name.
+// convertMap reads convertJieQi as a finite map alias -> name: the function is followed by the
+// evaluator for every key of JIE_QI_IN_USE and for every name of JIE_QI (if-chain or switch alike);
+// keys it maps to themselves are left out.
 func convertMap(c *Ctx, r *Report, rule string) map[string]string {
 	fn := c.Fn(r, rule, "calendar.convertJieQi")
 	if fn == nil {
 		return nil
 	}
 	out := map[string]string{}
-	var ret *ssa.Return
-	for _, b := range fn.Blocks {
-		for _, ins := range b.Instrs {
-			if x, ok := ins.(*ssa.Return); ok {
-				ret = x
-			}
-		}
-	}
-	if ret == nil || len(ret.Results) != 1 {
+	keys := append(append([]string{}, c.tabStrs(r, rule, "calendar", "JIE_QI_IN_USE")...), c.tabStrs(r, rule, "calendar", "JIE_QI")...)
+	if len(keys) == 0 {
 		return nil
 	}
-	phi, ok := ret.Results[0].(*ssa.Phi)
-	if !ok {
-		return nil
-	}
-	for i, e := range phi.Edges {
-		name, ok := constString(e)
+	for _, k := range keys {
+		v, ok := convertTerm(c, fn, k)
 		if !ok {
-			continue
+			return nil
 		}
-		pred := phi.Block().Preds[i]
-		// pred is the "then" block of a test strings.Compare(alias, jq) == 0
-		for _, b := range fn.Blocks {
-			iff, ok := b.Instrs[len(b.Instrs)-1].(*ssa.If)
-			if !ok || b.Succs[0] != pred {
-				continue
-			}
-			x, y, op, ok := stringCompareAtom(iff.Cond)
-			if !ok || op != token.EQL {
-				continue
-			}
-			if alias, ok := constString(x); ok {
-				out[alias] = name
-			} else if alias, ok := constString(y); ok {
-				out[alias] = name
-			}
+		if v != k {
+			out[k] = v
 		}
 	}
 	return out
@@ -69,7 +46,7 @@ func convertMap(c *Ctx, r *Report, rule string) map[string]string {
 
 func r03_1(c *Ctx, r *Report) {
 	const rule = "R03.1"
-	r.rule(rule, "Term-name tables agree. JIE_QI_IN_USE has 31 entries; convertJieQi (its if-chain read as a finite map) sends the seven alias keys to names such that convert(JIE_QI_IN_USE[i]) == JIE_QI[(i+23) % 24] for all 31 i — the canonical order from the previous Daxue to the next Jingzhe; JieQi.SetName classifies even positions of JIE_QI as qi and odd ones as jie, consistent with the even/odd positions of JIE_QI_IN_USE.")
+	r.rule(rule, "Term-name tables agree. JIE_QI_IN_USE has 31 entries; convertJieQi (followed by the evaluator for every key: a finite map) sends the seven alias keys to names such that convert(JIE_QI_IN_USE[i]) == JIE_QI[(i+23) % 24] for all 31 i — the canonical order from the previous Daxue to the next Jingzhe; JieQi.SetName classifies even positions of JIE_QI as qi and odd ones as jie, consistent with the even/odd positions of JIE_QI_IN_USE.")
 	inUse := c.tabStrs(r, rule, "calendar", "JIE_QI_IN_USE")
 	jq := c.tabStrs(r, rule, "calendar", "JIE_QI")
 	conv := convertMap(c, r, rule)
